@@ -510,3 +510,38 @@ fn parse_value(cs: &[char], i: &mut usize) -> Option<J> {
         }
     }
 }
+
+/// remove the entries of `__schema.types` whose name satisfies `pred`
+pub fn prune_types(j: &mut J, pred: &dyn Fn(&str) -> bool) {
+    if let J::Obj(top) = j {
+        if let Some((_, J::Obj(s))) = top.iter_mut().find(|(k, _)| k == "__schema") {
+            if let Some((_, J::Arr(ts))) = s.iter_mut().find(|(k, _)| k == "types") {
+                ts.retain(|t| match t {
+                    J::Obj(kvs) => !kvs.iter().any(|(k, v)| k == "name" && matches!(v, J::Str(n) if pred(n))),
+                    _ => true,
+                });
+            }
+        }
+    }
+}
+
+/// names of `__schema.types` in order
+pub fn type_names(j: &J) -> Vec<String> {
+    let mut out = vec![];
+    if let J::Obj(top) = j {
+        if let Some((_, J::Obj(s))) = top.iter().find(|(k, _)| k == "__schema") {
+            if let Some((_, J::Arr(ts))) = s.iter().find(|(k, _)| k == "types") {
+                for t in ts {
+                    if let J::Obj(kvs) = t {
+                        if let Some((_, J::Str(n))) = kvs.iter().find(|(k, _)| k == "name") {
+                            out.push(n.clone());
+                        }
+                    }
+                }
+            }
+        }
+    }
+    out
+}
+
+pub const BUILTIN_SCALAR_NAMES: [&str; 5] = ["Int", "Float", "String", "Boolean", "ID"];
